@@ -20,7 +20,7 @@ where
         usize::try_from(n).map_err(|e| io::Error::new(io::ErrorKind::InvalidData, e))
     })?;
 
-    let mut references = Vec::with_capacity(n_ref);
+    let mut references = Vec::new();
 
     for _ in 0..n_ref {
         let (bins, metadata) = read_bins(reader)?;
@@ -29,4 +29,22 @@ where
     }
 
     Ok(references)
+}
+
+#[cfg(test)]
+mod tests {
+    use super::*;
+
+    #[test]
+    fn test_read_reference_sequences_with_an_unsatisfiable_count() {
+        let src = [
+            0xff, 0xff, 0xff, 0xff, // n_ref = 4294967295
+            0xff, 0xff, 0xff, 0xff, // ref[0].n_bin = 4294967295
+        ];
+
+        assert!(matches!(
+            read_reference_sequences(&mut &src[..]),
+            Err(e) if e.kind() == io::ErrorKind::UnexpectedEof
+        ));
+    }
 }
